@@ -60,4 +60,5 @@ Fixpoint ustore_ops (w : world) (ops : list sexp) : list sexp :=
   | o :: r => let wr := ustore_op w o in snd wr :: ustore_ops (fst wr) r
   end.
 
+(* @run 7 run_ustore *)
 Definition run_ustore (x : sexp) : sexp := L (ustore_ops init_world (sL x)).
